@@ -1,6 +1,7 @@
 (* C04 - The thread list is a complete, register-accurate, consistent snapshot.  Property theorems only. *)
 From Coq Require Import List NArith Arith.
 From MDW Require Import Bytes CpuCtx GenTypes Generated CtxModel CtxProofs CtxTheorems ThreadList ThreadListProofs Ptrace PtraceProofs PtraceMore.
+From MDW Require MemWriter Writer Hoare MiniDump Image ImageThreads.
 Import ListNotations.
 Local Open Scope nat_scope.
 
@@ -59,3 +60,25 @@ Theorem C04_kept_attached_not_detached : forall ts, NoDup (map t_id ts) ->
   In (Attach (t_id t)) (fst (suspend_threads ts)) /\ ~ In (Detach (t_id t)) (fst (suspend_threads ts)).
 Proof. exact kept_attached_not_detached. Qed.
 Print Assumptions C04_kept_attached_not_detached.
+
+(* The thread list in the FINAL image of every dump (whole-image model, every content): the first stream, right behind the
+   directory; one record per thread of the content, in order, carrying that thread's id ([thread_says]: tid = it_tid); the stack
+   descriptor designates exactly the thread's stack bytes at the stack's start address and the context location designates
+   exactly its serialised context - whatever the later sections appended. *)
+Theorem C04_whole_image_thread_list : forall c dirs lg s',
+  Image.image c MiniDump.empty_wst = MemWriter.Ok ((dirs, lg), s') -> Hoare.small (Hoare.blen s') ->
+  let n := length (Image.ic_threads c) in
+  exists rs blocks cc,
+    ImageThreads.run_rel (ImageThreads.thread_says c (ImageThreads.HEAD_LEN + 4 + MiniDump.THREAD_SZ * n)) (Writer.w_buf s')
+      (Image.ic_threads c) ([], MiniDump.CNone) rs (blocks, cc) /\
+    slice (Writer.w_buf s') ImageThreads.HEAD_LEN (4 + MiniDump.THREAD_SZ * n) = le 4 (N.of_nat n) ++ concat (map Image.enc_thread3 rs) /\
+    hd_error dirs = Some (MiniDump.T_THREADS, {| MemWriter.l_rva := N.of_nat ImageThreads.HEAD_LEN; MemWriter.l_size := (4 + N.of_nat (MiniDump.THREAD_SZ * n))%N |}).
+Proof. exact ImageThreads.image_thread_list. Qed.
+Print Assumptions C04_whole_image_thread_list.
+
+(* ... hence the ids of the records are the ids of the threads, in order: every thread exactly once *)
+Theorem C04_whole_image_thread_ids : forall c lo b ts st rs st',
+  ImageThreads.run_rel (ImageThreads.thread_says c lo) b ts st rs st' ->
+  map (fun r : N * MiniDump.memdesc * MemWriter.loc => fst (fst r)) rs = map Image.it_tid ts.
+Proof. exact ImageThreads.run_rel_tids. Qed.
+Print Assumptions C04_whole_image_thread_ids.
